@@ -889,6 +889,14 @@ fn c06_scenarios(tier: Tier) -> Vec<Scenario> {
             t(vec![OpSpec::bucket("create", &[], "r00-pad-pad-pad-pad-pad-pad-pad"), OpSpec::bucket("delb", &[], "nope"), OpSpec::put(&["u"], "k", "v*8")]),
             t(vec![OpSpec::bucket("create", &[], "u"), OpSpec::put(&["t"], "a3", "m*300")]),
             t(vec![OpSpec::put(&["t"], "a3", "n*300")]),
+            // each kind of refused call alone in a bucket that is otherwise untouched, with the real
+            // change elsewhere
+            t(vec![OpSpec::del(&["t"], "a0s"), OpSpec::put(&["u"], "k", "v*9")]),
+            t(vec![OpSpec::del(&["t"], "nope"), OpSpec::put(&["u"], "k", "v*10")]),
+            t(vec![OpSpec::put(&["t"], "a7s", "v*8"), OpSpec::put(&["u"], "k", "v*11")]),
+            t(vec![OpSpec::bucket("create", &["t"], "a0s"), OpSpec::put(&["u"], "k", "v*12")]),
+            t(vec![OpSpec::bucket("delb", &["t"], "a3"), OpSpec::bucket("goc", &["t"], "a4"), OpSpec::put(&["u"], "k", "v*13")]),
+            t(vec![OpSpec::del(&["t", "a7s"], "nope"), OpSpec::bucket("delb", &["t", "a0s"], "in"), OpSpec::put(&["u"], "k", "v*14")]),
             Action::Reopen,
         ];
         let or4 = Oracles { rets: true, dump_after: true, fileck: true, dbcheck: true, ..Oracles::NONE };
